@@ -355,6 +355,14 @@ func panicSite() string {
 			if i := strings.LastIndex(fn, "/"); i >= 0 {
 				fn = fn[i+1:]
 			}
+			// a closure inside a method (`Status.func1`) is reported as the method: the site is the enclosing named function
+			for {
+				j := strings.LastIndex(fn, ".func")
+				if j < 0 || strings.Trim(fn[j+5:], "0123456789.") != "" {
+					break
+				}
+				fn = fn[:j]
+			}
 			return fn
 		}
 		if !more {
